@@ -45,14 +45,17 @@ func VerifResetCaches() {
 
 // VerifCacheKeys lists the types that currently have a cached plan.
 func VerifCacheKeys(cache int) []reflect.Type {
-	m := encodeFuncsCache
-	if cache == VerifCacheDecode {
-		m = decodeFuncsCache
-	}
 	var out []reflect.Type
-	m.Range(func(k, _ any) bool {
-		out = append(out, k.(reflect.Type))
+	collect := func(k, _ any) bool {
+		if t, ok := k.(reflect.Type); ok {
+			out = append(out, t)
+		}
 		return true
-	})
+	}
+	if cache == VerifCacheDecode {
+		decodeFuncsCache.Range(collect)
+	} else {
+		encodeFuncsCache.Range(collect)
+	}
 	return out
 }
